@@ -88,4 +88,83 @@ theorem lemire_truncated (F : FTy) (hF : IsLemireFloat F) (q : Int) (w : Nat) (n
       obtain ⟨_, r1, r2⟩ := lemire_invalid_range hF h0 hinv
       exact ⟨r1, r2, C01.lemire_invalid_estOK F hF q w fp0 (by omega) h0 hinv⟩
 
+/-! ## the capacity guard of `negative_digit_comp` from the closeness of the estimate -/
+
+set_option exponentiation.threshold 5000 in
+theorem pow_caps : 2 * 10 ^ 769 < 2 ^ 3968 ∧ 2 ^ 55 * 5 ^ 1093 < 2 ^ 3968 ∧ 10 ^ 1093 < 2 ^ 3968 :=
+  ⟨by decide +kernel, by decide +kernel, by decide +kernel⟩
+
+/-- both big integers of `negative_digit_comp` are about as large as the digits (`M < 10^769`) or as `b + h` scaled
+(`< 2^55·5^j`): `theor ≤ 2·M` when it is the one shifted left, `real < (2Q+4)·5^j` when that one is — because the estimate
+is a `40`-estimate of `M / 10^j` -/
+theorem neg_guard_bounds (Q K Sf mant M j L : Nat) (be : Int) (hbe : be = (K : Int) + j - (L + 1))
+    (hQ : Q = mant / 2 ^ Sf) (hS40 : 40 ≤ 2 ^ Sf) (hQ0 : Q = 0 → K = 0) (hQ53 : Q < 2 ^ 53)
+    (hj : j ≤ 1093) (hM : M < 10 ^ 769)
+    (lo : mant * 2 ^ K * 10 ^ j ≤ M * 2 ^ L * 2 ^ Sf) (hi : M * 2 ^ L * 2 ^ Sf < (mant + 40) * 2 ^ K * 10 ^ j) :
+    (2 * Q + 1) * 5 ^ j * 2 ^ be.toNat < 2 ^ 3968 ∧ M * 2 ^ (-be).toNat < 2 ^ 3968 := by
+  obtain ⟨c1, c2, c3⟩ := pow_caps
+  have h10 : (10 : Nat) ^ j = 5 ^ j * 2 ^ j := by rw [← Nat.mul_pow]
+  have h5j : 5 ^ j ≤ 5 ^ 1093 := Nat.pow_le_pow_right (by decide) hj
+  have h10j : 10 ^ j ≤ 10 ^ 1093 := Nat.pow_le_pow_right (by decide) hj
+  have hSpos := Nat.two_pow_pos Sf
+  have hQm : Q * 2 ^ Sf ≤ mant := by rw [hQ]; exact Nat.div_mul_le_self _ _
+  have hmQ : mant < 2 ^ Sf * (Q + 1) := by rw [hQ]; exact Nat.lt_mul_div_succ mant hSpos
+  by_cases hb : 0 ≤ be
+  · obtain ⟨n, hn⟩ : ∃ n : Nat, be = (n : Int) := ⟨be.toNat, by omega⟩
+    have e1 : be.toNat = n := by omega
+    have e2 : (-be).toNat = 0 := by omega
+    rw [e1, e2, Nat.pow_zero, Nat.mul_one]
+    have hKj : K + j = n + L + 1 := by omega
+    refine ⟨?_, by omega⟩
+    by_cases hq0 : Q = 0
+    · have hK0 := hQ0 hq0
+      have hnj : n ≤ j := by omega
+      have : 2 ^ n ≤ 2 ^ j := Nat.pow_le_pow_right (by decide) hnj
+      rw [hq0]
+      calc (2 * 0 + 1) * 5 ^ j * 2 ^ n = 5 ^ j * 2 ^ n := by ring
+        _ ≤ 5 ^ j * 2 ^ j := Nat.mul_le_mul_left _ this
+        _ = 10 ^ j := h10.symm
+        _ < 2 ^ 3968 := by omega
+    · have k1 : Q * 2 ^ K * 10 ^ j ≤ M * 2 ^ L := by
+        apply Nat.le_of_mul_le_mul_right _ hSpos
+        calc Q * 2 ^ K * 10 ^ j * 2 ^ Sf = (Q * 2 ^ Sf) * 2 ^ K * 10 ^ j := by ring
+          _ ≤ mant * 2 ^ K * 10 ^ j := Nat.mul_le_mul_right _ (Nat.mul_le_mul_right _ hQm)
+          _ ≤ M * 2 ^ L * 2 ^ Sf := lo
+      have k2 : 2 * (Q * 5 ^ j * 2 ^ n) ≤ M := by
+        apply Nat.le_of_mul_le_mul_right _ (Nat.two_pow_pos L)
+        calc 2 * (Q * 5 ^ j * 2 ^ n) * 2 ^ L = Q * 5 ^ j * 2 ^ (n + L + 1) := by
+              rw [Nat.pow_add, Nat.pow_add]; ring
+          _ = Q * 5 ^ j * 2 ^ (K + j) := by rw [hKj]
+          _ = Q * 2 ^ K * 10 ^ j := by rw [h10, Nat.pow_add]; ring
+          _ ≤ M * 2 ^ L := k1
+      have k3 : (2 * Q + 1) * 5 ^ j * 2 ^ n ≤ 2 * (2 * (Q * 5 ^ j * 2 ^ n)) := by
+        have : 2 * Q + 1 ≤ 4 * Q := by omega
+        calc (2 * Q + 1) * 5 ^ j * 2 ^ n = (2 * Q + 1) * (5 ^ j * 2 ^ n) := by ring
+          _ ≤ 4 * Q * (5 ^ j * 2 ^ n) := Nat.mul_le_mul_right _ this
+          _ = 2 * (2 * (Q * 5 ^ j * 2 ^ n)) := by ring
+      omega
+  · obtain ⟨n, hn⟩ : ∃ n : Nat, -be = (n : Int) := ⟨(-be).toNat, by omega⟩
+    have e1 : be.toNat = 0 := by omega
+    have e2 : (-be).toNat = n := by omega
+    rw [e1, e2, Nat.pow_zero, Nat.mul_one]
+    have hKj : n + (K + j) = L + 1 := by omega
+    constructor
+    · calc (2 * Q + 1) * 5 ^ j ≤ 2 ^ 55 * 5 ^ 1093 := Nat.mul_le_mul (by omega) h5j
+        _ < 2 ^ 3968 := c2
+    · have k1 : M * 2 ^ L < (Q + 2) * 2 ^ K * 10 ^ j := by
+        apply Nat.lt_of_mul_lt_mul_right (a := 2 ^ Sf)
+        calc M * 2 ^ L * 2 ^ Sf < (mant + 40) * 2 ^ K * 10 ^ j := hi
+          _ ≤ (2 ^ Sf * (Q + 1) + 2 ^ Sf) * 2 ^ K * 10 ^ j :=
+              Nat.mul_le_mul_right _ (Nat.mul_le_mul_right _ (by omega))
+          _ = (Q + 2) * 2 ^ K * 10 ^ j * 2 ^ Sf := by ring
+      have k2 : M * 2 ^ n < (2 * Q + 4) * 5 ^ j := by
+        apply Nat.lt_of_mul_lt_mul_right (a := 2 ^ (K + j))
+        calc M * 2 ^ n * 2 ^ (K + j) = M * 2 ^ (n + (K + j)) := by rw [Nat.pow_add]; ring
+          _ = 2 * (M * 2 ^ L) := by rw [hKj, Nat.pow_succ]; ring
+          _ < 2 * ((Q + 2) * 2 ^ K * 10 ^ j) := Nat.mul_lt_mul_of_pos_left k1 (by decide)
+          _ = (2 * Q + 4) * 5 ^ j * 2 ^ (K + j) := by rw [h10, Nat.pow_add]; ring
+      calc M * 2 ^ n < (2 * Q + 4) * 5 ^ j := k2
+        _ ≤ 2 ^ 55 * 5 ^ 1093 := Nat.mul_le_mul (by omega) h5j
+        _ < 2 ^ 3968 := c2
+
 end LexVerif.Props.C01Trunc
